@@ -382,8 +382,8 @@ def Client.SCIONClient_measureClockOffsetSCION : List Row := [
   (5, "spi, algo := scion.PacketAuthOptMetadata(authOpt)"),  -- ScionSrv.authMeta: SPI = bytes 0..3 big endian, algorithm = byte 4 (no panic: length checked) = AuthOpt.spi / AuthOpt.alg
   (5, "if spi == scion.PacketAuthSPIServer && algo == scion.PacketAuthAlgorithm"),  -- ClientNtp.classifySCIONWith: a.spi == spiServer && a.alg == algCMAC (pins C05_pin_spiServer, C05_pin_algorithm); else next
   (6, "_, err = spao.ComputeAuthCMAC( spao.MACInput{ Key: authKey, Header: slayers.PacketAuthOption{EndToEndOption: authOpt}, ScionLayer: &scionLayer, PldType: slayers.L4UDP, Pld: buf[len(buf)-int(udpLayer.Length):]}, c.Auth.buf, c.Auth.mac)"),  -- env: spao CMAC over the received packet; verdict = AuthOpt.macOk (harness c03 gen_auth recomputes it); Pld slice safe by row 175
-  (6, "if err != nil"),  -- UNMODELLED: ComputeAuthCMAC can fail on a received packet (unknown path type, cf. listener F4e); AuthOpt has only macOk : Bool
-  (7, "panic(err)"),  -- UNMODELLED: panic(err) on network input with a key available; Step.panic covers ValidateResponseTimestamps only
+  (6, "if err != nil"),  -- env: crypto library result; AuthOpt has only macOk : Bool, no 'MAC not computable' verdict (see next row)
+  (7, "panic(err)"),  -- UNMODELLED: panic(err) if the MAC over a received packet cannot be computed; model assumes it always can (Step.panic = timestamps only)
   (6, "authenticated = subtle.ConstantTimeCompare(scion.PacketAuthOptMAC(authOpt), c.Auth.mac) != 0"),  -- ClientNtp.AuthOpt.macOk: option MAC (ScionSrv.authMAC: bytes 12..28) equals the computed one (oracle input)
   (6, "if !authenticated"),  -- ClientNtp.classifySCIONWith: if !a.macOk
   (7, "err = errInvalidPacketAuthenticator"),  -- ClientNtp.classifySCIONWith: .skip .auth (C05_scion_invalid_authenticator_never_accepted)
@@ -490,67 +490,67 @@ def Client.MeasureClockOffsetIP : List Row := [
 
 /-- core/client, MeasureClockOffsetSCION -/
 def Client.MeasureClockOffsetSCION : List Row := [
-  (0, "func MeasureClockOffsetSCION(ctx context.Context, log *slog.Logger, ntpcs []*SCIONClient, localAddr, remoteAddr udp.UDPAddr, ps []snet.Path) ( time.Time, time.Duration, error)"),  -- ?
-  (1, "mtrcs := scionMetrics.Load()"),  -- ?
-  (1, "sps := make([]snet.Path, len(ntpcs))"),  -- ?
-  (1, "nsps := 0"),  -- ?
-  (1, "for i, c := range ntpcs"),  -- ?
-  (2, "if c.InInterleavedMode()"),  -- ?
-  (3, "pf := c.InterleavedModePath()"),  -- ?
-  (3, "for j := range len(ps)"),  -- ?
-  (4, "if p := ps[j]; snet.Fingerprint(p).String() == pf"),  -- ?
-  (5, "ps[j] = ps[len(ps)-1]"),  -- ?
-  (5, "ps = ps[:len(ps)-1]"),  -- ?
-  (5, "sps[i] = p"),  -- ?
-  (5, "nsps++"),  -- ?
-  (5, "break"),  -- ?
-  (2, "if sps[i] == nil"),  -- ?
-  (3, "c.ResetInterleavedMode()"),  -- ?
-  (3, "if c.Filter != nil"),  -- ?
-  (4, "c.Filter.Reset()"),  -- ?
-  (1, "n, err := crypto.Sample(ctx, len(sps)-nsps, len(ps), func(dst, src int) {…})"),  -- ?
-  (2, "func literal 1"),  -- ?
-  (3, "ps[dst] = ps[src]"),  -- ?
-  (1, "if err != nil"),  -- ?
-  (2, "return time.Time{}, 0, err"),  -- ?
-  (1, "if nsps+n == 0"),  -- ?
-  (2, "return time.Time{}, 0, errNoPath"),  -- ?
-  (1, "for i, j := 0, 0; j != n; j++"),  -- ?
-  (2, "for sps[i] != nil"),  -- ?
-  (3, "i++"),  -- ?
-  (2, "sps[i] = ps[j]"),  -- ?
-  (2, "nsps++"),  -- ?
-  (1, "ms := make([]measurements.Measurement, nsps)"),  -- ?
-  (1, "msc := make(chan measurements.Measurement)"),  -- ?
-  (1, "for i := range len(ntpcs)"),  -- ?
-  (2, "if sps[i] == nil"),  -- ?
-  (3, "continue"),  -- ?
-  (2, "go func(ctx context.Context, log *slog.Logger, mtrcs *scionClientMetrics, ntpc *SCIONClient, localAddr, remoteAddr udp.UDPAddr, p snet.Path) {…}(ctx, log, mtrcs, ntpcs[i], localAddr, udp.UDPAddr{IA: remoteAddr.IA, Host: snet.CopyUDPAddr(remoteAddr.Host)}, sps[i])"),  -- ?
-  (3, "func literal 1"),  -- ?
-  (4, "var err error"),  -- ?
-  (4, "var ts time.Time"),  -- ?
-  (4, "var off time.Duration"),  -- ?
-  (4, "var nerr, n int"),  -- ?
-  (4, "if ntpc.InterleavedMode"),  -- ?
-  (5, "n = 3"),  -- ?
-  (4, "else"),  -- ?
-  (5, "n = 1"),  -- ?
-  (4, "for j := range n"),  -- ?
-  (5, "t, o, e := ntpc.measureClockOffsetSCION(ctx, mtrcs, localAddr, remoteAddr, p)"),  -- ?
-  (5, "if e == nil"),  -- ?
-  (6, "ts, off, err = t, o, e"),  -- ?
-  (6, "if ntpc.InInterleavedMode()"),  -- ?
-  (7, "break"),  -- ?
-  (5, "else"),  -- ?
-  (6, "if nerr == j"),  -- ?
-  (7, "err = e"),  -- ?
-  (6, "nerr++"),  -- ?
-  (4, "msc <- measurements.Measurement{ Timestamp: ts, Offset: off, Error: err}"),  -- ?
-  (1, "n = collectMeasurements(ctx, ms, msc)"),  -- ?
-  (1, "if n == 0"),  -- ?
-  (2, "return time.Time{}, 0, errNoMeasurement"),  -- ?
-  (1, "m := measurements.FaultTolerantMidpoint(ms)"),  -- ?
-  (1, "return m.Timestamp, m.Offset, m.Error")  -- ?
+  (0, "func MeasureClockOffsetSCION(ctx context.Context, log *slog.Logger, ntpcs []*SCIONClient, localAddr, remoteAddr udp.UDPAddr, ps []snet.Path) ( time.Time, time.Duration, error)"),  -- Multipath.round (f11fixed = f12fixed = true) / roundP / roundAt: the whole function; harness c15 ops mp.round, pa.round
+  (1, "mtrcs := scionMetrics.Load()"),  -- env: metrics handle (counters dropped from the skeleton)
+  (1, "sps := make([]snet.Path, len(ntpcs))"),  -- Multipath.stickyLoop: result list, one Option Path per client (none = nil)
+  (1, "nsps := 0"),  -- Multipath.countSome: nsps (number of some entries)
+  (1, "for i, c := range ntpcs"),  -- Multipath.stickyLoop: recursion over the clients, candidates threaded through
+  (2, "if c.InInterleavedMode()"),  -- Multipath.wantsSticky true c = c.inInterleavedMode (pin C15_pin_round stickyGuard, x_c15.go; false = code before F11: pf != "")
+  (3, "pf := c.InterleavedModePath()"),  -- Multipath.Client.ipath: prevPath when in interleaved mode, else ""
+  (3, "for j := range len(ps)"),  -- Multipath.stickyStep: ps.findIdx? over the remaining candidates
+  (4, "if p := ps[j]; snet.Fingerprint(p).String() == pf"),  -- Multipath.stickyStep: fun p => p.2 == c.ipath (fingerprints compared as strings)
+  (5, "ps[j] = ps[len(ps)-1]"),  -- Multipath.swapRemove: ps.set j last (in place: Multipath.stickyLoopTail / arrayAfter say what stays in the caller's array)
+  (5, "ps = ps[:len(ps)-1]"),  -- Multipath.swapRemove: dropLast
+  (5, "sps[i] = p"),  -- Multipath.stickyStep: (some p, swapRemove ps j)
+  (5, "nsps++"),  -- Multipath.countSome: one more some entry
+  (5, "break"),  -- Multipath.stickyStep: findIdx? = first match only (C15_sticky_kept)
+  (2, "if sps[i] == nil"),  -- Multipath.assignFrom: reset := st.1.map Option.isNone
+  (3, "c.ResetInterleavedMode()"),  -- Multipath.assignFrom: reset flag (set before any error return); the write: MainCfg.SCIONClient.resetInterleavedMode
+  (3, "if c.Filter != nil"),  -- Multipath.assignFrom: reset flag stands for ResetInterleavedMode + Filter.Reset together (RoundOut.reset doc); nil filter: no flag
+  (4, "c.Filter.Reset()"),  -- Filters.luckyReset / Filters.ntimedReset: the reset itself; Multipath reports the flag only; c15 oracle C15:sticky:not-reset
+  (1, "n, err := crypto.Sample(ctx, len(sps)-nsps, len(ps), func(dst, src int) {…})"),  -- Multipath.assignFrom: sample (st.1.length - nsps) st.2.length cancelled s (Sample.sample; pin C15_pin_round sampleArgs)
+  (2, "func literal 1"),  -- Sample.sample: the pick(dst, src) calls, returned as the list picks
+  (3, "ps[dst] = ps[src]"),  -- Sample.applyPicks: l.set d l[s] (in place; Multipath.arrayAfter for the caller's array)
+  (1, "if err != nil"),  -- Multipath.assignFrom: | .err e
+  (2, "return time.Time{}, 0, err"),  -- Multipath.assignFrom: (.errSample e, reset); round: RoundRes.errSample (clients already reset)
+  (1, "if nsps+n == 0"),  -- Multipath.assignFrom: if nsps + n = 0
+  (2, "return time.Time{}, 0, errNoPath"),  -- Multipath.assignFrom: (.errNoPath rest, reset); round: RoundRes.errNoPath (C15_no_path_error, C15_no_client_error)
+  (1, "for i, j := 0, 0; j != n; j++"),  -- Multipath.fill: over sps with the n sampled paths (applyPicks st.2 picks).take n
+  (2, "for sps[i] != nil"),  -- Multipath.fill: | some p :: sps, qs => some p :: fill sps qs (skip clients that have a path)
+  (3, "i++"),  -- Multipath.fill: next list position
+  (2, "sps[i] = ps[j]"),  -- Multipath.fill: | none :: sps, q :: qs => some q :: fill sps qs
+  (2, "nsps++"),  -- Multipath.countSome of the filled list = number of participants (C15_participants)
+  (1, "ms := make([]measurements.Measurement, nsps)"),  -- Multipath.values: one slot per participant, zero measurement until a success is stored (r.getD 0)
+  (1, "msc := make(chan measurements.Measurement)"),  -- env: unbuffered result channel (Collect.St.sending models such a channel for MeasureClockOffsets)
+  (1, "for i := range len(ntpcs)"),  -- Multipath.round: (cs.zip sps).map, one entry per client
+  (2, "if sps[i] == nil"),  -- Multipath.round: if p.isSome ... else 0 (probes); Multipath.values: filterMap keeps participants only
+  (3, "continue"),  -- Multipath.round: probes = 0, no value for a client without a path (oracle C15:round:probes)
+  (2, "go func(ctx context.Context, log *slog.Logger, mtrcs *scionClientMetrics, ntpc *SCIONClient, localAddr, remoteAddr udp.UDPAddr, p snet.Path) {…}(ctx, log, mtrcs, ntpcs[i], localAddr, udp.UDPAddr{IA: remoteAddr.IA, Host: snet.CopyUDPAddr(remoteAddr.Host)}, sps[i])"),  -- Multipath.round: one goroutine per participant = its outcome succ[i]; PARTIAL: CopyUDPAddr (race repair) seen only by c15 -race
+  (3, "func literal 1"),  -- Multipath.attemptLoop: body of the per-path goroutine (own client object per goroutine: C03Refclk_clients_distinct)
+  (4, "var err error"),  -- Multipath.attemptLoopGo: state err : Option Nat, initially none (nil)
+  (4, "var ts time.Time"),  -- Multipath.attemptLoopGo: state val : Option Nat, initially none (zero timestamp)
+  (4, "var off time.Duration"),  -- Multipath.attemptLoopGo: state val, initially none (zero offset; Multipath.values: r.getD 0)
+  (4, "var nerr, n int"),  -- Multipath.attemptLoopGo: state nerr = 0; n = length of outs
+  (4, "if ntpc.InterleavedMode"),  -- Multipath.round: probes, if c.mode
+  (5, "n = 3"),  -- Multipath.round: probes = 3 (attemptLoop over three outcomes: C15_attempt_loop_three_complete)
+  (4, "else"),  -- Multipath.round: probes, else
+  (5, "n = 1"),  -- Multipath.round: probes = 1
+  (4, "for j := range n"),  -- Multipath.attemptLoopGo: recursion over outs, j = loop index
+  (5, "t, o, e := ntpc.measureClockOffsetSCION(ctx, mtrcs, localAddr, remoteAddr, p)"),  -- ClientNtp.exchangeSCION (after ClientNtp.entry): one call; its outcome is outs[j] of Multipath.attemptLoop (ClientNtp.Attempt)
+  (5, "if e == nil"),  -- Multipath.attemptLoopGo: | true :: rest
+  (6, "ts, off, err = t, o, e"),  -- Multipath.attemptLoopGo: err := none, val := some j (C15_attempt_loop_reports_iff_any_success)
+  (6, "if ntpc.InInterleavedMode()"),  -- ClientNtp.inInterleavedMode: interleavedMode && prev.reference != "" && prev.interleaved (condition only, see next row)
+  (7, "break"),  -- UNMODELLED: break after a success in interleaved mode; Multipath.attemptLoopGo assumes it never fires (IP twin: ClientNtp.wrapLoop)
+  (5, "else"),  -- Multipath.attemptLoopGo: | false :: rest
+  (6, "if nerr == j"),  -- Multipath.attemptLoopGo: if nerr == j (only while every attempt so far failed)
+  (7, "err = e"),  -- Multipath.attemptLoopGo: err := some j (attemptLoopLastErr = seeded variant, C15_attempt_loop_last_error_refuted)
+  (6, "nerr++"),  -- Multipath.attemptLoopGo: nerr + 1
+  (4, "msc <- measurements.Measurement{ Timestamp: ts, Offset: off, Error: err}"),  -- Multipath.round: succ[i] (some off iff attemptLoop reports nil error); the send: Collect.Choice.finish (blocked in msc <- m)
+  (1, "n = collectMeasurements(ctx, ms, msc)"),  -- Multipath.successes sps succ: all participants report; PARTIAL: return on ctx expiry (Collect, Props C16) not composed here
+  (1, "if n == 0"),  -- Multipath.round: if f12fixed && successes sps succ == 0
+  (2, "return time.Time{}, 0, errNoMeasurement"),  -- Multipath.round: RoundRes.errNoMeasurement (repair of F12; C15_F12_old_counterexample)
+  (1, "m := measurements.FaultTolerantMidpoint(ms)"),  -- Multipath.round: ftm (values sps succ), ftm a parameter (Measurements.ftm is C02's; pin C15_pin_round ftm); C15_result_is_ftm
+  (1, "return m.Timestamp, m.Offset, m.Error")  -- Multipath.round: RoundRes.ok off; PARTIAL: Timestamp / Error of the midpoint only in Measurements.ftmSel, not compared
   ]
 
 end ScionTime.Model.Skel
